@@ -529,6 +529,52 @@ def r06_15(chk):
     chk.floor("R06.15", 2, "separation and converter argument")
 
 
+def r06_16(chk):
+    chk.rule("R06.16", "a format the caller names is the format that is used: in cogent3._load_seqs (behind load_seq / load_unaligned_seqs / load_aligned_seqs) every parser lookup takes the explicit `fmt` argument first and falls back to the suffix only when none was given (`fmt or file_format`) -- a lookup by suffix first parses FASTA text saved as 'x.aln' or PHYLIP saved as 'x.fasta' with the wrong parser although the caller said what it is")
+    m = chk.repo.module("__init__.py")
+    fn = m.func("_load_seqs")
+    ps = params_of(fn)
+    if "fmt" not in ps or "file_format" not in ps:
+        raise AnalysisError("_load_seqs: parameters fmt / file_format not found")
+    calls = [c for c in walk_no_nested(fn) if isinstance(c, ast.Call) and (call_name(c) or "").split(".")[-1] == "get_parser" and c.args]
+    if not calls:
+        raise AnalysisError("_load_seqs: get_parser(...) not found")
+    defs = {st.targets[0].id: st.value for st in walk_no_nested(fn) if isinstance(st, ast.Assign) and isinstance(st.targets[0], ast.Name)}
+
+    def prefers_fmt(e, depth=0):
+        if isinstance(e, ast.Name):
+            if e.id == "fmt" and "fmt" in defs and depth < 3:
+                return prefers_fmt(defs["fmt"], depth + 1)
+            if e.id in defs and depth < 3:
+                return prefers_fmt(defs[e.id], depth + 1)
+            return e.id == "fmt"
+        if isinstance(e, ast.BoolOp) and isinstance(e.op, ast.Or):
+            return isinstance(e.values[0], ast.Name) and e.values[0].id == "fmt"
+        if isinstance(e, ast.IfExp):
+            return "fmt" in norm(e.test) and prefers_fmt(e.body, depth + 1)
+        return False
+
+    for c in calls:
+        chk.decide(prefers_fmt(c.args[0]), "R06.16", key(m, "_load_seqs", f"parser chosen by {norm(c.args[0])[:30]}"), m.loc(c), "the explicit format has priority over the suffix", f"`{norm(c)}` looks the parser up without giving the caller's `fmt` priority: load_aligned_seqs('brca1.aln', format='fasta') is read with the Clustal parser")
+    chk.floor("R06.16", 1, "_load_seqs")
+
+
+def r06_17(chk):
+    chk.rule("R06.17", "interleaved PHYLIP: the 10-column name field exists in the first num_seqs rows and nowhere else, so the parser drops the field (`id_offset = 0`) on a test of the ROW COUNT against the header's num_seqs -- never on meeting a blank line (the blank line between blocks is optional; without it every row of the later blocks would lose its first ten residues)")
+    from .c09 import _enclosing_tests
+
+    m = chk.repo.module("parse/phylip.py")
+    fn = m.func("MinimalPhylipParser")
+    drops = [st for st in walk_no_nested(fn) if isinstance(st, ast.Assign) and norm(st.targets[0]) == "id_offset" and isinstance(st.value, ast.Constant) and st.value.value == 0]
+    if not drops:
+        raise AnalysisError("MinimalPhylipParser: `id_offset = 0` not found")
+    for st in drops:
+        tests = _enclosing_tests(fn, st)
+        counted = any("num_seqs" in t and ("%" in t or "==" in t or ">=" in t) and not t.startswith("not (") for t in tests)
+        chk.decide(counted, "R06.17", key(m, "MinimalPhylipParser", "name field dropped by row count"), m.loc(st), f"under {[t for t in tests if 'num_seqs' in t]}", f"`id_offset = 0` is reached under {tests}: none of these counts rows against num_seqs, so an interleaved file without a blank line after its first block keeps the name field for all later rows (RecordError: Found 29, Expected 39)")
+    chk.floor("R06.17", 1, "MinimalPhylipParser")
+
+
 def r06_9(chk):
     chk.rule("R06.9", "GenBank bytes parser: records are split on the line-anchored terminator b'\\n//'; because that separator begins with the newline of the previous line, every later piece starts with a newline -- the piece is left-trimmed before its first line (LOCUS) is taken, and the guard that skips the piece after the last terminator also covers the empty piece (`not piece`, not just piece.isspace())")
     from ..cfg import build
@@ -617,6 +663,8 @@ def r06_11(chk):
 
 
 def run(chk):
+    r06_17(chk)
+    r06_16(chk)
     r06_15(chk)
     r06_14(chk)
     r06_13(chk)
